@@ -1,4 +1,5 @@
 CONSTANT MolEqIgnoresKeyIndex = TRUE
+CONSTANT ArgsLoose = FALSE
 CONSTANT Shard = 0
 CONSTANT NShards = 1
 INIT Init
